@@ -21,7 +21,8 @@ SPEC = {
              "than one call or more than two events. snode cases: all calls through ONE service stack (same node; callers told "
              "apart by goroutine) with status polls (GetConnectionCode) whose storage read is held between 'performed' and "
              "'returned' across a complete activation/revocation and into the next one's critical section (140 directed, "
-             "exhaustive 2act / 2act+revoke, random); a call that waits inside the code under test is detected and resumed. uniq cases: the real CreateConnectionCode on a code space of 1-3 codes (shim "
+             "exhaustive 2act / 2act+revoke, random); stuck-call cases: Z events (3.5 s of wall-clock time with every call parked) "
+             "between a call's claim and its writes while another call runs through; a call that waits inside the code under test is detected and resumed. uniq cases: the real CreateConnectionCode on a code space of 1-3 codes (shim "
              "VerifSetGenerator), creations interleaved with activations, judged by holdsUniq; distinct = distinct case strings"),
     "trusted_base": [
         "Lean 4.33 kernel; axioms propext, Classical.choice, Quot.sound only (audited per theorem on every run)",
@@ -34,8 +35,11 @@ SPEC = {
         "atomic-step granularity = one storage phase, validated against single-operation interleavings by the fine cases",
     ],
     "assumptions": [
-        "the claim key does not expire while its holder is inside ActivateConnectionCode/RevokeConnectionCode (codeClaimTTL = 30 s "
-        "versus a call of a few storage round trips); a holder stalled longer than that is outside the model",
+        "the claim key is a lease (codeClaimTTL, wall-clock TTL) that is neither renewed nor checked again before the writes: the "
+        "theorems assume that the stalls of a history do not add up to its lifetime (hypothesis leaseOk; necessary: C06_lease_witness). "
+        "Pinned: codeClaimTTL outlasts two 3.5 s stalls (claim_lease_pin), and the harness holds a call for 3.5 s / 7 s between its "
+        "claim and its mapping write / write-back while another node activates or revokes (Z events); a call stuck for longer than "
+        "codeClaimTTL (30 s) is outside the model",
         "the code string of a request is compared as a raw string (no canonicalisation anywhere: skel_keys); a request that spells "
         "the code differently is a request for another key (model: Thread.spell, own claim key, no record)",
         "one generation of the code string: a second CreateConnectionCode that draws the same string after the first record vanished "
